@@ -139,12 +139,12 @@ func genHEVCSets(t *rapid.T) *hevcCtx {
 	return c
 }
 
-func (c *hevcCtx) stsd(typ string, complete bool) []byte {
+func (c *hevcCtx) stsd(typ string, complete bool, extra ...[]byte) []byte {
 	s := &c.sps.SPS
 	h := HvcCParams{ProfileIDC: s.ProfileTierLevel.GeneralProfileIDC, Compat: s.ProfileTierLevel.GeneralProfileCompatibilityFlags,
 		Constraint48: 0x9 << 44, Level: s.ProfileTierLevel.GeneralLevelIDC, ChromaFormat: s.ChromaFormatIDC,
 		NumTemporalLayers: 1, TemporalIDNested: true}
-	return VideoStsd(typ, HvcC(h, c.vpsNal, c.spsNal, c.ppsNal, complete))
+	return VideoStsd(typ, HvcC(h, c.vpsNal, c.spsNal, c.ppsNal, complete), extra...)
 }
 
 var hevcVclTypes = []byte{0, 1, 0, 1, 6, 7, 8, 9, 16, 17, 18, 19, 20, 21}
